@@ -71,7 +71,8 @@ theorem mean_loop (l : List ℝ) (k : ℕ) (m : ℝ) :
     have hk : (k : ℝ) + (1.0 : ℝ) = ((k + 1 : ℕ) : ℝ) := by push_cast; norm_num
     obtain ⟨m', e, hm⟩ := ih (k + 1) (m + (a - m) / ((k + 1 : ℕ) : ℝ))
     refine ⟨m', ?_, ?_⟩
-    · simp only [hk, e, List.length_cons]; congr 3; omega
+    · simp only [hk, e, List.length_cons, LoopR.done.injEq, Prod.mk.injEq, and_true]
+      push_cast; ring
     · have h1 : ((k + 1 : ℕ) : ℝ) ≠ 0 := by positivity
       have : k + (a :: t).length = k + 1 + t.length := by simp; omega
       rw [this, hm]
@@ -101,10 +102,9 @@ theorem geometric_loop (l : List ℝ) (k : ℕ) (s : ℝ) :
   | cons a t ih =>
     unfold IterStatistics.geometric_mean.loop1
     have hk : (k : ℝ) + (1.0 : ℝ) = ((k + 1 : ℕ) : ℝ) := by push_cast; norm_num
-    simp only [hk, ih, rfun_ln, List.length_cons, List.map_cons, List.sum_cons]
-    congr 3
-    · congr 1; omega
-    · ring
+    simp only [hk, ih, rfun_ln, List.length_cons, List.map_cons, List.sum_cons,
+      LoopR.done.injEq, Prod.mk.injEq]
+    refine ⟨?_, ?_⟩ <;> (push_cast; ring)
 
 /-- `harmonic_mean` loop without negative entries: count and running `Σ 1/x` -/
 theorem harmonic_loop (l : List ℝ) (k : ℕ) (s : ℝ) (h : ∀ x ∈ l, ¬ x < 0) :
@@ -117,10 +117,11 @@ theorem harmonic_loop (l : List ℝ) (k : ℕ) (s : ℝ) (h : ∀ x ∈ l, ¬ x 
     have hk : (k : ℝ) + (1.0 : ℝ) = ((k + 1 : ℕ) : ℝ) := by push_cast; norm_num
     have ha : ¬ a < (0.0 : ℝ) := by rw [lit_zero]; exact h a (by simp)
     have ht : ∀ x ∈ t, ¬ x < 0 := fun x hx => h x (by simp [hx])
-    simp only [ha, if_false, hk, ih _ _ ht, lit_one, List.length_cons, List.map_cons, List.sum_cons]
-    congr 3
-    · congr 1; omega
-    · ring
+    simp only [ha, if_false, hk]
+    rw [ih _ _ ht]
+    simp only [lit_one, List.length_cons, List.map_cons, List.sum_cons,
+      LoopR.done.injEq, Prod.mk.injEq]
+    refine ⟨?_, ?_⟩ <;> (push_cast; ring)
 
 /-- `variance` loop (Welford/West update in the `i·x − Σ` form): starting from count `k ≥ 1`,
     running sum `S` and running second moment `v`, the loop ends with count `k + |l|`,
@@ -139,10 +140,9 @@ theorem variance_loop (l : List ℝ) (k : ℕ) (hk1 : 1 ≤ k) (S v : ℝ) :
       (v + ((((k + 1 : ℕ) : ℝ) * a - (S + a)) * (((k + 1 : ℕ) : ℝ) * a - (S + a)))
         / (((k + 1 : ℕ) : ℝ) * (((k + 1 : ℕ) : ℝ) - (1.0 : ℝ))))
     refine ⟨v', ?_, ?_⟩
-    · simp only [hk, e, List.length_cons, List.sum_cons]
-      congr 3
-      · congr 1; omega
-      · congr 1; ring
+    · simp only [hk, e, List.length_cons, List.sum_cons, LoopR.done.injEq, Prod.mk.injEq,
+        and_true]
+      refine ⟨?_, ?_⟩ <;> (push_cast; ring)
     · have h0 : (k : ℝ) ≠ 0 := by positivity
       have h1 : ((k : ℝ) + 1) ≠ 0 := by positivity
       have hl : k + (a :: t).length = k + 1 + t.length := by simp; omega
@@ -150,6 +150,8 @@ theorem variance_loop (l : List ℝ) (k : ℕ) (hk1 : 1 ≤ k) (S v : ℝ) :
       rw [hl, hs, hv, lit_one]
       simp only [List.map_cons, List.sum_cons]
       push_cast
+      have hkk : (k : ℝ) + 1 - 1 = k := by ring
+      rw [hkk]
       field_simp
       ring
 
